@@ -151,6 +151,27 @@ theorem indexAfter_lt (r : RPos) (i : Nat) (hi : i < r.depth) : r.indexAfter i =
   unfold RPos.indexAfter
   rw [if_neg (by simp; omega)]
 
+/-! ### the innermost level of `from` -/
+
+/-- what the innermost level of `from` must provide: with the frontier's match `q` there, whatever filling
+    `fill_before(after, True)` answered at `q` makes `botL ++ fill ++ after` valid content -/
+def BotLOK (S : Schema) (rf : RPos) (botL : List Node) : Prop :=
+  ∀ q, S.contentMatchAt (S.tyOf rf.parent) rf.parent.kids (rf.indexAfter rf.depth) = some q →
+    ∀ fill after H2, fillOpt S (S.dfa (S.tyOf rf.parent)) q (S.types after) true = .ok (some fill) →
+      S.types H2 = S.types after → MarksOK S (S.tyOf rf.parent) H2 →
+      S.validContent (S.tyOf rf.parent) (botL ++ fill ++ H2) = true
+
+/-- the plain case: `botL` are the children up to `from` (the text child `from` is in cut short) -/
+theorem botLOK_of_sig (S : Schema) (hdet : DetS S) (hleaf : LeafOk S) {ty0 : TypeId} {a0 : Attrs} {m0 : Marks}
+    {K : List Node} {f : Nat} {rf : RPos} (hf : (Node.elem ty0 a0 m0 K).resolve f = some rf)
+    (hv : S.checkNode (.elem ty0 a0 m0 K) = true) (botL : List Node)
+    (hbL : sigOf S botL = sigOf S (rf.parent.kids.take (rf.indexAfter rf.depth))) : BotLOK S rf botL := by
+  intro q hq fill after H2 hfill hH2 hm2
+  obtain ⟨hvD, _, _⟩ := level_check S hf hv rf.depth (Nat.le_refl _)
+  exact level_valid S hdet hleaf (S.tyOf rf.parent) _ _ fill _ _ q hq (sigOf_types S hbL)
+    (sigOf_marksOK S _ hbL (marksOK_sub S _ (marksOK_of_valid S _ _ hvD) (fun c hc => List.mem_of_mem_take hc)))
+    hfill hH2 hm2
+
 /-! ### the closed levels of `from` -/
 
 theorem mem_take_of {α : Type} {l : List α} {i : Nat} {c : α} (h : c ∈ l.take i) : c ∈ l := List.mem_of_mem_take h
@@ -161,7 +182,7 @@ theorem mem_drop_of {α : Type} {l : List α} {i : Nat} {c : α} (h : c ∈ l.dr
 theorem leftOK_of_run (S : Schema) (hdet : DetS S) (hleaf : LeafOk S) {ty0 : TypeId} {a0 : Attrs} {m0 : Marks}
     {K : List Node} {f : Nat} {rf : RPos} (hf : (Node.elem ty0 a0 m0 K).resolve f = some rf)
     (hv : S.checkNode (.elem ty0 a0 m0 K) = true) (botL : List Node)
-    (hbL : sigOf S botL = sigOf S (rf.parent.kids.take (rf.indexAfter rf.depth)))
+    (hbL : BotLOK S rf botL)
     (hkL : S.checkKids botL = true) :
     ∀ (n j : Nat) (fills : List (List Node)), j + n = rf.depth → fills.length = n →
       (∀ k, k < n → ∃ q fill, S.contentMatchAt (S.tyOf (rf.node (j + 1 + k))) (rf.node (j + 1 + k)).kids
@@ -191,22 +212,29 @@ theorem leftOK_of_run (S : Schema) (hdet : DetS S) (hleaf : LeafOk S) {ty0 : Typ
       refine ⟨checkKids_sub S hkj (fun c hc => mem_take_of hc), by rw [hmk]; exact hcm1,
         fillOpt_valid S hdet hleaf _ _ _ _ _ hfill, ?_, ih⟩
       rw [hty]
-      have hH : sigOf S (headL (framesFrom rf (j + 1) n) botL)
-          = sigOf S ((rf.node (j + 1)).kids.take (rf.indexAfter (j + 1))) := by
-        cases n with
-        | zero =>
-          have : j + 1 = rf.depth := by omega
-          simp only [framesFrom, headL]
-          rw [hbL, this]
-          rfl
-        | succ n' =>
+      cases n with
+      | zero =>
+        have e : j + 1 = rf.depth := by omega
+        simp only [framesFrom, headL]
+        rw [e] at hq hfill ⊢
+        have := hbL q hq fill [] [] hfill rfl (fun c hc => by simp at hc)
+        simp only [List.append_nil] at this
+        exact this
+      | succ n' =>
+        have hH : sigOf S (headL (framesFrom rf (j + 1) (n' + 1)) botL)
+            = sigOf S ((rf.node (j + 1)).kids.take (rf.indexAfter (j + 1))) := by
           simp only [framesFrom, headL]
           rw [indexAfter_lt rf (j + 1) (by omega)]
           exact (level_sig S hf (j + 1) (by omega)).1
-      have := level_valid S hdet hleaf (S.tyOf (rf.node (j + 1))) _ _ fill [] [] q hq (sigOf_types S hH)
-        (sigOf_marksOK S _ hH (marksOK_sub S _ (marksOK_of_valid S _ _ hvj1) (fun c hc => mem_take_of hc))) hfill rfl
-        (fun c hc => by simp at hc)
-      simpa using this
+        have := level_valid S hdet hleaf (S.tyOf (rf.node (j + 1))) _ _ fill [] [] q hq (sigOf_types S hH)
+          (sigOf_marksOK S _ hH (marksOK_sub S _ (marksOK_of_valid S _ _ hvj1) (fun c hc => mem_take_of hc))) hfill rfl
+          (fun c hc => by simp at hc)
+        simpa using this
+
+end PM
+
+namespace PM
+open PM.FromDom (LeafOk)
 
 /-! ### the re-opened levels of the end position -/
 
@@ -475,7 +503,7 @@ theorem closeLevel_valid (S : Schema) (hdet : DetS S) (hleaf : LeafOk S) {ty0 : 
     {K : List Node} {f p : Nat} {rf tgt mv : RPos} {c : Nat} {fit : List Node} {di : Bool}
     (hf : (Node.elem ty0 a0 m0 K).resolve f = some rf) (hmv : (Node.elem ty0 a0 m0 K).resolve p = some mv)
     (hv : S.checkNode (.elem ty0 a0 m0 K) = true) (C : CloseFacts S rf tgt mv c fit di) (botL botR : List Node)
-    (hbL : sigOf S botL = sigOf S (rf.parent.kids.take (rf.indexAfter rf.depth)))
+    (hbL : BotLOK S rf botL)
     (hbR : sigOf S botR = sigOf S (mv.parent.kids.drop (mv.index mv.depth))) :
     S.validContent (S.tyOf (rf.node c))
       (headL (framesFrom rf c (rf.depth - c)) botL ++ fit
@@ -486,12 +514,23 @@ theorem closeLevel_valid (S : Schema) (hdet : DetS S) (hleaf : LeafOk S) {ty0 : 
   simp only [Option.some.injEq] at hq'
   subst hq'
   rw [← C.idxc, ← C.nodes c (Nat.le_refl _)] at hfill him
-  have hL := headL_facts S hf botL hbL c (rf.depth - c) (by have := C.hcD; omega)
   have hR := headR_facts S hmv botR hbR (S.tyOf (rf.node c)) c (mv.depth - c) (by have := C.hcM; omega)
     (invalidMarks_false S _ _ him)
-  exact level_valid S hdet hleaf (S.tyOf (rf.node c)) _ _ fit _ _ q hq (sigOf_types S hL)
-    (sigOf_marksOK S _ hL (marksOK_sub S _ (marksOK_of_valid S _ _ hvc) (fun x hx => mem_take_of hx)))
-    hfill hR.1 hR.2
+  cases hn : rf.depth - c with
+  | zero =>
+    have e : c = rf.depth := by have := C.hcD; omega
+    simp only [framesFrom, headL]
+    rw [e] at hq hfill hR ⊢
+    exact hbL q hq fit _ _ hfill hR.1 hR.2
+  | succ n' =>
+    have hL : sigOf S (headL (framesFrom rf c (n' + 1)) botL)
+        = sigOf S ((rf.node c).kids.take (rf.indexAfter c)) := by
+      simp only [framesFrom, headL]
+      rw [indexAfter_lt rf c (by omega)]
+      exact (level_sig S hf c (by omega)).1
+    exact level_valid S hdet hleaf (S.tyOf (rf.node c)) _ _ fit _ _ q hq (sigOf_types S hL)
+      (sigOf_marksOK S _ hL (marksOK_sub S _ (marksOK_of_valid S _ _ hvc) (fun x hx => mem_take_of hx)))
+      hfill hR.1 hR.2
 
 /-- **the joined ancestors are `compatible_content`** (guard `joinCompatB` where `content_after_fits` did not test) -/
 theorem compatFrames_of_run (S : Schema) (hdet : DetS S) (hjc : joinCompatB S = true) {ty0 : TypeId} {a0 : Attrs}
